@@ -84,6 +84,7 @@ pub fn run(args: &Args) {
     expref_return_table(&mut rep, args);
     error_propagation_table(&mut rep, args);
     deregistration_table(&mut rep, args);
+    nested_call_table(&mut rep, args, &ev);
     // unknown inner call is reported, not the outer: arguments are evaluated first
     if args.shard == 0 {
         for (text, inner) in [("length(nofn(@))", "nofn"), ("nofn(nofn2(@))", "nofn2"), ("abs(x, nofn3(`1`))", "nofn3")] {
@@ -300,6 +301,75 @@ fn check_succeeds(rep: &mut Report, text: &str, doc: &Value, cell: &str) {
             "C06/call-evaluated-although-short-circuited",
             json!({"expression": text, "document": doc, "cell": cell, "got": format!("{:?}", other.map(|r| r.map(|v| v.to_string()).map_err(|e| e.to_string())))}),
         ),
+    }
+}
+
+/// A call whose argument is a call: `f(g(x))` is `f` applied to whatever `g(x)` returned — it fails when
+/// `g(x)` fails (with that failure), fails when the result of `g` is not what `f` accepts, and otherwise
+/// returns a value of `f`'s declared type. Every pair of one-argument built-ins over every class of subject
+/// (and three-deep for a third of them): no pair may be fused into something with a different signature.
+fn nested_call_table(rep: &mut Report, args: &Args, ev: &Evaluator) {
+    const ONE: [&str; 17] = ["abs", "avg", "ceil", "floor", "keys", "length", "max", "min", "reverse", "sort", "sum", "to_array", "to_number", "to_string", "type", "values", "not_null"];
+    let mut cell = 0u64;
+    for f in ONE.iter() {
+        for g in ONE.iter() {
+            for class in 0..9usize {
+                cell += 1;
+                if cell % args.shards != args.shard {
+                    continue;
+                }
+                for r in 0..3u64 {
+                    let mut rng = Rng::derive(args.seed ^ fnv(f.as_bytes()) ^ fnv(g.as_bytes()).rotate_left(7), class as u64, r);
+                    let v = representative(class, &mut rng).expect("a value class");
+                    let h = ONE[rng.below(ONE.len())];
+                    let three = r == 2;
+                    let (text, docv) = if r % 2 == 1 {
+                        (if three { format!("{}({}({}(p0)))", h, f, g) } else { format!("{}({}(p0))", f, g) }, json!({"p0": v}))
+                    } else {
+                        (if three { format!("{}({}({}({})))", h, f, g, spell_literal(&v, 0)) } else { format!("{}({}({}))", f, g, spell_literal(&v, 0)) }, json!({}))
+                    };
+                    let step = |name: &str, x: Result<Value, ErrKind>| -> Result<Value, ErrKind> { x.and_then(|y| ev.call_builtin(name, &[Arg::Val(y)], 0).map_err(|e| e.kind)) };
+                    let mut expected = step(f, step(g, Ok(v.clone())));
+                    if three {
+                        expected = step(h, expected);
+                    }
+                    rep.evaluations += 1;
+                    let got = guarded(|| jmespath::compile(&text).and_then(|e| e.search(rcvar_of(&docv))));
+                    let label = format!("{}({}({}))", f, g, CLASSES[class]);
+                    let witness = |exp: String, got: String| json!({"expression": text, "document": docv, "cell": label, "expected_from_the_parts": exp, "got": got});
+                    let got = match got {
+                        Ok(x) => x,
+                        Err(p) => {
+                            rep.violation(&format!("C06/panic/{}", panic_site(&p)), witness("no panic".into(), p));
+                            continue;
+                        }
+                    };
+                    let outer = if three { h } else { *f };
+                    match (expected, got) {
+                        (Err(ErrKind::Unconstrained(_)), _) => rep.count("nested_call/unconstrained"),
+                        (Err(k), Err(e)) => {
+                            let want = match k { ErrKind::Arity => "arity", ErrKind::Type => "type", ErrKind::UnknownFunction(_) => "unknown-function", _ => "?" };
+                            if err_class(&e) == want {
+                                rep.count("nested_call/failed_as_the_parts_fail");
+                                rep.nontrivial(fnv(label.as_bytes()));
+                            } else {
+                                rep.violation("C06/wrong-error-kind/nested-call", witness(want.into(), err_class(&e).into()));
+                            }
+                        }
+                        (Err(k), Ok(x)) => rep.violation("C06/ill-formed-call-accepted/nested-call", witness(format!("{:?}", k), x.to_string())),
+                        (Ok(x), Err(e)) => rep.violation("C06/well-typed-call-rejected/nested-call", witness(x.to_string(), err_class(&e).into())),
+                        (Ok(x), Ok(y)) => match value_of(&y) {
+                            Ok(gv) if type_name(&gv) == type_name(&x) && (outer == "not_null" || outer == "reverse" || declared_result_ok(outer, None, &gv)) => {
+                                rep.count("nested_call/agree_ok");
+                                rep.nontrivial(fnv(label.as_bytes()));
+                            }
+                            Ok(gv) => rep.violation("C06/undeclared-result-type/nested-call", witness(x.to_string(), gv.to_string())),
+                            Err(w) => rep.violation("C06/undeclared-result-type/nested-call", witness(x.to_string(), w.into())),
+                        },
+                    }
+                }
+            }
+        }
     }
 }
 
